@@ -21,9 +21,16 @@ import (
 type c10cfg struct {
 	bTrustsA bool
 	seed     string // none | visible | pending | completed | scheduled
+	simple   bool   // all nodes use hubx.SimpleMdns (second implementation of api.MdnsInterface) instead of the MdnsManager
 }
 
-func (c c10cfg) name() string { return fmt.Sprintf("bTrustsA=%v/seed=%s", c.bTrustsA, c.seed) }
+func (c c10cfg) name() string {
+	n := fmt.Sprintf("bTrustsA=%v/seed=%s", c.bTrustsA, c.seed)
+	if c.simple {
+		n += "/simplemdns"
+	}
+	return n
+}
 
 type c10world struct {
 	c        c10cfg
@@ -90,7 +97,11 @@ func (w *c10world) apply(ev string) {
 			b.Start()
 		}
 	case "bDown":
-		b.Mdns.UnannounceMdnsEntry()
+		if b.Simple != nil {
+			b.Simple.UnannounceMdnsEntry()
+		} else {
+			b.Mdns.UnannounceMdnsEntry()
+		}
 	case "cUp":
 		if !w.cUp {
 			w.cUp = true
@@ -274,9 +285,13 @@ func c10Build(c c10cfg) func(hist []string) hx.GView {
 		simrt.ClearTraceHooks()
 		fakews.SetLatency(time.Millisecond)
 		w := &c10world{c: c}
-		w.a = hubx.NewNode("A", 0, 4711)
-		w.b = hubx.NewNode("B", 1, 4712)
-		w.cc = hubx.NewNode("C", 2, 4713)
+		if c.simple {
+			w.a, w.b, w.cc = hubx.NewNodeSimpleMdns("A", 0, 4711), hubx.NewNodeSimpleMdns("B", 1, 4712), hubx.NewNodeSimpleMdns("C", 2, 4713)
+		} else {
+			w.a = hubx.NewNode("A", 0, 4711)
+			w.b = hubx.NewNode("B", 1, 4712)
+			w.cc = hubx.NewNode("C", 2, 4713)
+		}
 		if c.bTrustsA {
 			w.b.Hub.RegisterRemoteSKI(w.a.SKI)
 		}
@@ -449,6 +464,11 @@ func c10Main(r *hx.Run) {
 			c := c10cfg{bTrustsA: bt, seed: seed}
 			ms = append(ms, hx.GModel{Name: c.name(), Build: c10Build(c), MaxDepth: depth, MaxStates: 200000})
 		}
+	}
+	// the same histories with the second mDNS implementation (synchronous answers, no re-announcement events)
+	for _, seed := range []string{"none", "completed"} {
+		c := c10cfg{bTrustsA: true, seed: seed, simple: true}
+		ms = append(ms, hx.GModel{Name: c.name(), Build: c10Build(c), MaxDepth: depth, MaxStates: 200000})
 	}
 	if r.Worker {
 		if hx.WorkerMode() == "s" {
